@@ -1,2 +1,27 @@
-"""Signature predicates for known findings (see known_findings.json)."""
-from .findings import sig  # noqa: F401
+"""Signature predicates for known findings (see known_findings.json).  Each accepts only the narrow failing class it names."""
+from .findings import sig
+
+
+def _is_subseq(small, big):
+    it = iter(big)
+    return all(any(x == y for y in it) for x in small)
+
+
+@sig("c19_spurious_short_frame_from_noise")
+def c19_spurious(case, clause):
+    """_process_buffer returns every modulated frame, in order, plus extra SHORT frames of a format without checksum
+    (DF4/5/11) sliced out of noise, in a buffer whose noise peaks reach 0.2 absolute (the preamble template's tolerance)."""
+    if clause != "demod_wrong_or_extra_frames" or case.get("fn") != "demod" or case.get("cls") != "ten_db":
+        return False
+    res = case.get("res", {})
+    if res.get("t") != "frames":
+        return False
+    got = ["".join(chr(c) for c in t) for t in res["v"]]
+    sent = [bytes(f).hex().upper() for f in case.get("sent", [])]
+    if not _is_subseq(sent, got) or len(got) <= len(sent):
+        return False
+    extra = list(got)
+    for s in sent:
+        extra.remove(s)
+    noise_peak = case["case"][3] if len(case.get("case", [])) > 3 else 0
+    return noise_peak >= 200 and all(len(x) == 14 and (int(x[:2], 16) >> 3) in (4, 5, 11) for x in extra)
